@@ -24,6 +24,19 @@ pub struct QCtx<'a> {
     pub other_blocks: &'a [(String, u64, u64)],
     /// block range keys to re-key sub-proofs to
     pub range_keys: &'a [(u64, u64)],
+    /// sub-proofs the aggregator made over trees of its own, per block range key
+    pub self_made: &'a [SelfMadeSub],
+}
+
+/// a valid proof over an aggregator-made tree holding leaves of items that are not on the chain
+pub struct SelfMadeSub {
+    pub key: (u64, u64),
+    pub what: &'static str,
+    /// the forged items it proves (the ones the answer then reports)
+    pub items: Vec<Item>,
+    pub proof: PMap,
+    /// tried under a key the answer has no genuine sub-proof for as well
+    pub also_under_unproven_key: bool,
 }
 
 pub struct Alt {
@@ -463,6 +476,75 @@ fn proof_edits(r: &Resp, pi: usize, cx: &QCtx, out: &mut Vec<Alt>) {
     }
 }
 
+/// A block range key stated twice: a sub-proof made by the aggregator over its own tree (forged
+/// leaves, possibly next to genuine ones) is listed before / after the genuine sub-proof of the same
+/// key, the forged items being appended to, or put in place of, the reported items of that range.
+/// Also: such a sub-proof under a key the answer has no genuine sub-proof for.
+fn self_made_sub_proofs(r: &Resp, pi: usize, cx: &QCtx, out: &mut Vec<Alt>) {
+    let proof = &r.parts[pi].proof;
+    for f in cx.self_made {
+        let key = PRange { inner_range: f.key.0..f.key.1 };
+        let genuine = proof.sub_proofs.iter().position(|(k, _)| k == &key);
+        match genuine {
+            Some(i) => {
+                let here: Vec<Vec<u8>> = proof.sub_proofs[i].1.master_proof.inner_leaves.iter().map(|(_, l)| l.hash.clone()).collect();
+                for (place, at) in [("before", i), ("after", i + 1)] {
+                    let mut n = r.clone();
+                    n.parts[pi].proof.sub_proofs.insert(at, (key.clone(), f.proof.clone()));
+                    n.parts[pi].items.extend(f.items.iter().cloned());
+                    push(
+                        out,
+                        "self-made-sub-proof-under-proven-key",
+                        format!("part {pi}: {} listed {place} the genuine sub-proof of range {}-{}, its item(s) appended", f.what, f.key.0, f.key.1),
+                        n,
+                    );
+                    let mut n = r.clone();
+                    n.parts[pi].proof.sub_proofs.insert(at, (key.clone(), f.proof.clone()));
+                    let mut t = f.items.iter();
+                    let mut changed = false;
+                    for it in n.parts[pi].items.iter_mut() {
+                        if here.contains(&it.leaf())
+                            && let Some(x) = t.next()
+                        {
+                            *it = x.clone();
+                            changed = true;
+                        }
+                    }
+                    if changed {
+                        push(
+                            out,
+                            "self-made-sub-proof-under-proven-key",
+                            format!("part {pi}: {} listed {place} the genuine sub-proof of range {}-{}, its item(s) in place of the genuine one(s)", f.what, f.key.0, f.key.1),
+                            n,
+                        );
+                    }
+                }
+            }
+            None if f.also_under_unproven_key => {
+                for (place, at) in [("first", 0), ("last", proof.sub_proofs.len())] {
+                    let mut n = r.clone();
+                    n.parts[pi].proof.sub_proofs.insert(at, (key.clone(), f.proof.clone()));
+                    n.parts[pi].items.extend(f.items.iter().cloned());
+                    push(
+                        out,
+                        "self-made-sub-proof-under-unproven-key",
+                        format!("part {pi}: {} listed {place} under range {}-{} (no genuine sub-proof of it in the answer), its item(s) appended", f.what, f.key.0, f.key.1),
+                        n,
+                    );
+                }
+            }
+            None => {}
+        }
+    }
+    // a genuine entry stated twice, the copy in front (the copy at the end is `sub-proof-duplicated`)
+    for i in 0..proof.sub_proofs.len() {
+        let mut n = r.clone();
+        let d = n.parts[pi].proof.sub_proofs[i].clone();
+        n.parts[pi].proof.sub_proofs.insert(0, d);
+        push(out, "sub-proof-duplicated", format!("part {pi}: sub-proof {i} listed twice (copy first)"), n);
+    }
+}
+
 pub fn alterations(r: &Resp, cx: &QCtx) -> Vec<Alt> {
     let mut out: Vec<Alt> = vec![];
     // ---- items
@@ -512,6 +594,7 @@ pub fn alterations(r: &Resp, cx: &QCtx) -> Vec<Alt> {
             push(&mut out, "item-added", format!("part {pi}: item {} added", a.short()), n);
         }
         proof_edits(r, pi, cx, &mut out);
+        self_made_sub_proofs(r, pi, cx, &mut out);
     }
     leaf_neighbour_shifts(r, &mut out);
     // ---- several set proofs (legacy format)
